@@ -98,6 +98,17 @@ RoundTripViol(t, s) ==
              \cup (IF a.tomb = 0 /\ a.dang = 0 THEN {} ELSE {<<l, "RtStale" \o nm>>})
        IN chk(t.st, "") \cup chk(t.st2, "2")
 
+\* C08, index level: Save(header) then Load through a fragmenting reader into a fresh / used index
+StreamViol(t) ==
+  IF t.res # "ok" THEN {<<l, "RtErr">>}
+  ELSE (IF Items(t.st) = Items(t.pre) THEN {} ELSE {<<l, "RtItems">>})
+       \cup (IF Links(t.st) = Links(t.pre) THEN {} ELSE {<<l, "RtLinks">>})
+       \cup (IF Len(t.pre.ep) = 4 /\ t.pre.ep[2] = 0 /\ t.st.ep # t.pre.ep THEN {<<l, "RtEp">>} ELSE {})
+       \cup (IF t.st.len = Len(t.pre.live) THEN {} ELSE {<<l, "RtLen">>})
+       \cup (IF t.st.bytes = t.pre.bytes THEN {} ELSE {<<l, "RtBytes">>})
+       \cup (IF t.st.tomb = 0 /\ t.st.dang = 0 THEN {} ELSE {<<l, "RtStale">>})
+       \cup (IF t.unread = 0 THEN {} ELSE {<<l, "RtUnread">>})
+
 Fatal(t) == IF t.res \in {"panic", "fatal", "lost"} THEN {<<l, "Outcome_" \o t.res>>} ELSE {}
 ErrMap(t) == [i \in {t.errs[j][1] : j \in 1..Len(t.errs)} |->
                 LET j == CHOOSE j \in 1..Len(t.errs) : t.errs[j][1] = i IN t.errs[j][2]]
@@ -127,6 +138,9 @@ Step ==
                /\ viol' = viol \cup Fatal(t)
                                \cup (IF Fatal(t) # {} \/ (t.res = "batch" /\ ErrMap(t) = r.errs) THEN {} ELSE {<<l, "BatchErrs">>})
                                \cup FullViol(t, r.s, ins)
+       [] t.ev = "stream" ->
+            /\ store' = store /\ cfg' = cfg /\ insOnly' = insOnly
+            /\ viol' = viol \cup StreamViol(t)
        [] t.ev = "saveload" ->
             /\ store' = store /\ cfg' = cfg /\ insOnly' = insOnly
             /\ viol' = viol \cup RoundTripViol(t, store) \cup FullViol(t, store, insOnly)
